@@ -17,6 +17,7 @@ import (
 	"verif/harness/internal/core"
 	"verif/harness/internal/fsx"
 	"verif/harness/internal/memdev"
+	"verif/harness/internal/rawiso"
 	"verif/harness/internal/tlc"
 )
 
@@ -92,6 +93,49 @@ func c03Exec(t map[string]any, idx int) map[string]any {
 		}
 		ev["calls"] = calls
 		return ev
+	}
+	if (kind == "iso" || kind == "squashfs") && work == "exactfit" {
+		// first a roomy build to learn what the image needs, then a range of exactly that size
+		entries := []fsx.Entry{{Path: "a.bin", Data: randomBytes(1, int(sector))}, {Path: "dir", Dir: true}, {Path: "dir/b.bin", Data: randomBytes(2, int(3*sector))}, {Path: "zz_last.bin", Data: randomBytes(3, int(2*sector))}}
+		if str(t, "size") == "odd" {
+			entries = append(entries, fsx.Entry{Path: "zzz_tail.bin", Data: randomBytes(4, int(sector)+1)})
+		}
+		opt := fsx.Opt{Size: 16 << 20, Sector: sector, IsoOpts: &iso9660.FinalizeOptions{RockRidge: true}, SquashOpts: &squashfs.FinalizeOptions{}}
+		v0, err := fsx.BuildImage(kind, entries, opt)
+		if err != nil {
+			ev["res"], ev["detail"] = "setup", "roomy build: "+err.Error()
+			return finish()
+		}
+		var needed int64
+		if kind == "iso" {
+			iso, err := rawiso.ParseISO(v0.Dev, 0, 16<<20, sector)
+			if err != nil {
+				ev["res"], ev["detail"] = "setup", "independent parser: "+err.Error()
+				return finish()
+			}
+			needed = int64(iso.VolumeBlocks) * sector
+		} else {
+			sb, err := rawiso.ParseSquashSB(v0.Dev, 0)
+			if err != nil {
+				ev["res"], ev["detail"] = "setup", "independent parser: "+err.Error()
+				return finish()
+			}
+			needed = int64(sb.BytesUsed)
+		}
+		size = needed
+		ev["size"] = fmt.Sprint(size)
+		d = memdev.NewPattern(start + size + 4<<20)
+		d.FailOutside = []memdev.Range{{Off: start, Len: size}}
+		opt.Size, opt.Start = size, start
+		var berr error
+		if pn := fsx.Catch(func() { _, berr = fsx.BuildImageOn(kind, d, entries, opt) }); pn != "" {
+			ev["res"], ev["detail"] = "panic", pn
+		} else if berr != nil {
+			ev["res"], ev["detail"] = "err", berr.Error()
+		}
+		calls = len(entries) + 1
+		ev["full"] = true
+		return finish()
 	}
 	if kind == "iso" || kind == "squashfs" {
 		b := file.New(d, false)
@@ -405,7 +449,7 @@ func C03(c *core.Ctx) {
 		add(ev)
 		c.Distinct("fs|" + js(tuples[i]))
 		outcomes[str(tuples[i], "work")+":"+str(ev, "res")]++
-		if str(tuples[i], "work") == "fill" || str(tuples[i], "work") == "fillodd" || str(tuples[i], "work") == "oversize" {
+		if str(tuples[i], "work") == "fill" || str(tuples[i], "work") == "fillodd" || str(tuples[i], "work") == "oversize" || str(tuples[i], "work") == "exactfit" {
 			fills++
 			if ev["full"] == true {
 				full++
